@@ -254,7 +254,7 @@ func c08RandomSchedule(r *Rng, n int, liveClaims bool) func(w *c08World, i int) 
 					if v.Kind == "claim" && !v.Del && v.Ref != "" && !busy[c08Live{"claim", v.Name}] {
 						if _, ok := s.objs["xr/"+v.Ref]; !ok {
 							// weight: as likely as the other reconciles together, so that the window is hit
-							for j := 0; j <= len(spawns); j++ {
+							for j, m := 0, len(spawns); j <= m; j++ {
 								spawns = append(spawns, c08Live{"claim", v.Name})
 							}
 							break
